@@ -340,6 +340,11 @@ class RState:
         self.cs = self.pos
 
 
+class Undefined(Exception):
+    """the reading rules prescribe nothing here: a field is to be read whose length field was absent
+    (an optional length field referenced from a later chunk)"""
+
+
 class Diverges(Exception):
     """the reading rules do not terminate on this input: a read-to-end loop whose element consumed
     nothing (no more data became reachable, the state repeats)"""
@@ -417,6 +422,8 @@ def _read_value(spec, tref, st, ins, lenvals):
         L = None
         if ins.tag == "field" and ins.length is not None:
             L = int(ins.length) if ins.length.isdigit() else lenvals[ins.length]
+            if L is None:
+                raise Undefined(ins.length)
         if L is None:
             b = st.take(st.rem())
             return cp_dec(ds(b) if enc else b)
@@ -477,6 +484,8 @@ def _parse_obj(spec, decl, st, ctx_chunked):
                 n = None
                 if ins.length is not None:
                     n = int(ins.length) if ins.length.isdigit() else lenvals[ins.length]
+                    if n is None:
+                        raise Undefined(ins.length)
                 elif not ins.delimited:
                     z = fixed_size(spec, tref)
                     if z is not None:
